@@ -35,6 +35,8 @@ func c19Alphabet(tier string) []seqSym {
 		sy("SET", "k1", "a", "BOUNDS", "1", "2", "3", "4"),
 		sy("SET", "k1", "a", "EX", "100", "STRING", "v2"),
 		sy("SET", "k1", "a", "EX", "100", "POINT", "5", "5"),
+		sy("SET", "k1", "a", "EX", "-3000000000", "POINT", "5", "5"), // a deadline before 1970: negative, not "none"
+		sy("EXPIRE", "k1", "b", "-3000000000"),
 		sy("SET", "k1", "b", "FIELD", "f", "1", "FIELD", "g", "a-longer-string-value", "POINT", "3", "4"),
 		sy("SET", "k2", "a", "OBJECT", gLine),
 		sy("SET", "k3", "x", "XX", "POINT", "1", "1"), // refused: must leave nothing behind
@@ -212,6 +214,33 @@ func c19AtState(x *Exec, in *Inst, c *Cli, _ *mState) (out [][2]string) {
 		}
 		if ids, ok := idsOf(c.Do("SEARCH", key, "LIMIT", "1000000", "IDS")); !ok || !sameSet(ids, strs) {
 			add("access-path:search", fmt.Sprintf("SEARCH %s IDS -> %v, retrievable strings %v", key, ids, strs))
+		}
+		// ranges: several literal prefixes, both directions (ids for SCAN, values for SEARCH)
+		vals := map[string]string{}
+		for _, it := range sc.A[1].A {
+			vals[it.A[0].S] = it.A[1].S
+		}
+		for _, ord := range []string{"ASC", "DESC"} {
+			var wantIDs, wantStrs []string
+			for _, id := range all {
+				if strings.HasPrefix(id, "a") || strings.HasPrefix(id, "b") {
+					wantIDs = append(wantIDs, id)
+				}
+			}
+			for _, id := range strs {
+				if strings.HasPrefix(vals[id], "h") || strings.HasPrefix(vals[id], "v") || strings.HasPrefix(vals[id], "{") {
+					wantStrs = append(wantStrs, id)
+				}
+			}
+			if ids, ok := idsOf(c.Do("SCAN", key, "LIMIT", "1000000", "MATCH", "a*", "MATCH", "b*", ord, "IDS")); !ok || !sameSet(ids, wantIDs) {
+				add("access-path:scan-prefix-ranges:"+strings.ToLower(ord), fmt.Sprintf("SCAN %s MATCH a* MATCH b* %s IDS -> %v, retrievable ids with these prefixes %v", key, ord, ids, wantIDs))
+			}
+			if v := c.Do("SCAN", key, "MATCH", "a*", "MATCH", "b*", ord, "COUNT"); v.String() != ":"+strconv.Itoa(len(wantIDs)) {
+				add("count:scan-prefix-ranges:"+strings.ToLower(ord), fmt.Sprintf("SCAN %s MATCH a* MATCH b* %s COUNT -> %s, retrievable ids with these prefixes: %d", key, ord, v, len(wantIDs)))
+			}
+			if ids, ok := idsOf(c.Do("SEARCH", key, "LIMIT", "1000000", "MATCH", "h*", "MATCH", "v*", "MATCH", "{*", ord, "IDS")); !ok || !sameSet(ids, wantStrs) {
+				add("access-path:search-prefix-ranges:"+strings.ToLower(ord), fmt.Sprintf("SEARCH %s MATCH h* MATCH v* MATCH {* %s IDS -> %v, retrievable strings with these value prefixes %v", key, ord, ids, wantStrs))
+			}
 		}
 		for _, q := range [][]string{{"INTERSECTS", key, "LIMIT", "1000000", "IDS", "BOUNDS", "-90", "-180", "90", "180"},
 			{"WITHIN", key, "LIMIT", "1000000", "IDS", "BOUNDS", "-90", "-180", "90", "180"},
